@@ -137,6 +137,11 @@ var c18Params = []c18Spec{
 	{c14ColSpec: c14ColSpec{mk: func() proto.Column { return &proto.ColFixedStr{Size: 3} }, bytesLen: 3}},
 	{c14ColSpec: c14ColSpec{mk: func() proto.Column { return new(proto.ColPoint) }}},
 	{c14ColSpec: c14ColSpec{mk: func() proto.Column { return new(proto.ColJSONStr) }}},
+	// the raw fixed-width enum columns: Enum8(...) binds to ColEnum8 and Enum16(...) to ColEnum16, never across (C18E)
+	{c14ColSpec: c14ColSpec{mk: func() proto.Column { return new(proto.ColEnum8) }}},
+	{c14ColSpec: c14ColSpec{mk: func() proto.Column { return new(proto.ColEnum16) }}},
+	{c14ColSpec: c14ColSpec{mk: func() proto.Column { return new(proto.ColEnum8).Array() }}},
+	{c14ColSpec: c14ColSpec{mk: func() proto.Column { return new(proto.ColEnum16).Nullable() }}},
 }
 
 // columns as a caller declares them before any block arrived: no parameters yet
@@ -1090,6 +1095,40 @@ func c18Pairs(h *H, all, sources []c18Spec, n int) {
 	if n > len(ps) {
 		n = len(ps)
 	}
+	// the enum / small-integer family, where ColumnType.Conflicts has its special cases (an enum binds to the integer of
+	// its width and to the raw enum column of its width, never across widths): every ordered pair, every run
+	focus := func(s c18Spec) bool {
+		l := s.label()
+		if strings.Contains(l, "Tuple(") || strings.Contains(l, "Map(") || strings.Contains(l, "ColTuple") || strings.Contains(l, "ColMap") {
+			return false
+		}
+		if strings.Contains(l, "Enum") {
+			return true
+		}
+		switch s.typ {
+		case "Int8", "Int16", "UInt8", "UInt16":
+			return true
+		}
+		return false
+	}
+	var fs []pair
+	for i := range sources {
+		if !focus(sources[i]) {
+			continue
+		}
+		for j := range all {
+			if focus(all[j]) {
+				fs = append(fs, pair{i, j})
+			}
+		}
+	}
+	if len(fs) > 600 {
+		h.R.Shuffle(len(fs), func(i, j int) { fs[i], fs[j] = fs[j], fs[i] })
+		fs = fs[:600]
+	}
+	h.Stats["c18.pairs.enum-family"] += len(fs)
+	ps = append(fs, ps[:n]...)
+	n = len(ps)
 	for _, p := range ps[:n] {
 		rows := []int{0, 1, 2, 5}[h.R.Intn(4)]
 		t := c18Tgt{spec: all[p.t], name: "v"}
